@@ -1666,6 +1666,11 @@ func applyGC(cells []*btpb.Cell, rule *btapb.GcRule, now bigtable.Timestamp) []*
 		return cells[:si]
 	case *btapb.GcRule_MaxNumVersions:
 		n := int(rule.MaxNumVersions)
+		if n < 0 {
+			// Nothing validates GC rules when a family is created or updated; a negative
+			// count must not crash the collector (it runs on a background goroutine).
+			return cells
+		}
 		if len(cells) > n {
 			cells = cells[:n]
 		}
